@@ -2,10 +2,11 @@
 Enumerated: (a) every closed core term up to a size; (b) every small term in every compiler position context; (c) skeleton
 families (call-site x parameter shapes, counters, shadowing / specialised names, dead code, let depth x arguments under tail
 calls, begin/define interleavings, inlinable functions, higher-order procedures, data)."""
-import sys, json
+import sys, json, os, re
 from . import common, progs, ref_scheme
 
 P = "C01"
+MODDIR = os.path.join(common.VERIF, ".work", "c01mods")
 
 _base = None
 
@@ -47,6 +48,7 @@ def terminates(steps):
     I = _base
     I.order = "lr"
     I.globals = dict(I._g0)
+    steps = demodule(steps)[0]
     for s in steps:
         I.out = []
         try:
@@ -58,7 +60,42 @@ def terminates(steps):
     return True
 
 
+MODRE = re.compile(r"^\(%module \(provide ([^)]*)\) (.*)\)$", re.S)
+
+
+def demodule(steps):
+    """a module-placement program as the reference sees it: the module's definitions evaluated first, in one unit"""
+    m = MODRE.match(steps[0]) if steps else None
+    if m:
+        return [m.group(2)] + list(steps[1:]), True
+    return steps, False
+
+
+def mat(steps):
+    """what is sent to the engine: the pseudo-form (%module (provide names) defs...) becomes a file module and a require of it"""
+    m = MODRE.match(steps[0]) if steps and isinstance(steps[0], str) else None
+    if not m:
+        return steps
+    body = "(provide %s)\n%s\n" % (m.group(1), m.group(2))
+    os.makedirs(MODDIR, exist_ok=True)
+    path = os.path.join(MODDIR, common.sha(body) + ".scm")
+    if not os.path.exists(path):
+        tmp = path + ".%d" % os.getpid()
+        with open(tmp, "w") as fh:
+            fh.write(body)
+        os.replace(tmp, path)
+    return ['(require "%s")' % path] + list(steps[1:])
+
+
 def reference(steps):
+    steps, is_mod = demodule(steps)
+    r = reference0(steps)
+    if r is not None and is_mod:
+        r = [(r[0][0], None, r[0][2])] + r[1:]  # the value of a require form is not pinned down
+    return r
+
+
+def reference0(steps):
     """-> list of (status, value-or-None(unspecified), stdout-or-None) or None when the program is outside the reference
     (non-terminating within the budget, or order-sensitive in a way the documentation does not pin down)"""
     a = ref_eval(steps, "lr")
@@ -125,10 +162,10 @@ def work(item):
         refs[i] = rf
         if any(k in " ".join(steps) for k in ("lambda", "define", "set!", "apply", "error", "let")):
             nontriv += 1
-        cases.append({"id": i, "steps": steps})
+        cases.append({"id": i, "steps": mat(steps)})
     # programs that define globals run in a child of their own (they may redefine built-ins); pure expressions are batched
-    iso = [c for c in cases if any("(define" in s for s in c["steps"])]
-    bat = [c for c in cases if not any("(define" in s for s in c["steps"])]
+    iso = [c for c in cases if any(("(define" in s or "(require" in s) for s in c["steps"])]
+    bat = [c for c in cases if not any(("(define" in s or "(require" in s) for s in c["steps"])]
     res = common.run_cases(bat, env=env, batch=25, timeout_ms=20000)
     res.update(common.run_cases(iso, env=env, batch=1, timeout_ms=20000))
     fails = []
@@ -140,7 +177,7 @@ def work(item):
         d = compare(refs[i], obs)
         if d is not None:
             # confirm in a child of its own before reporting
-            r2 = common.run_cases([{"id": 0, "steps": steps}], env=env, batch=1, timeout_ms=20000)[0]
+            r2 = common.run_cases([{"id": 0, "steps": mat(steps)}], env=env, batch=1, timeout_ms=20000)[0]
             obs2 = observe(r2, len(steps))
             d2 = compare(refs[i], obs2)
             if d2 is None:
@@ -153,11 +190,26 @@ def work(item):
     return len(lst), skipped, nontriv, fails, outcomes
 
 
+def wellformed(steps):
+    """shrinking must not leave the program class: a module pseudo-form provides identifiers that its body defines, and appears first only"""
+    for i, st in enumerate(steps):
+        if "%module" in st:
+            m = MODRE.match(st)
+            if i != 0 or not m:
+                return False
+            names = m.group(1).split()
+            if not names or any(not re.match(r"^[a-z][a-z0-9?!*-]*$", n) or ("(define (%s " % n) not in m.group(2) + " " and ("(define (%s)" % n) not in m.group(2) for n in names):
+                return False
+    return True
+
+
 def still_fails(steps, env, cls):
+    if not wellformed(steps):
+        return False
     rf = reference(steps)
     if rf is None:
         return False
-    r = common.run_cases([{"id": 0, "steps": steps}], env=env, batch=1, timeout_ms=20000)[0]
+    r = common.run_cases([{"id": 0, "steps": mat(steps)}], env=env, batch=1, timeout_ms=20000)[0]
     d = compare(rf, observe(r, len(steps)))
     return d is not None and classify(d) == cls
 
@@ -202,11 +254,12 @@ def program_set(tier):
     fam.append(("skeleton", progs.skeletons(tier)))
     fam.append(("jit", progs.jit_family()))
     fam.append(("history", progs.history_family()))
+    fam.append(("operand-count", progs.wide_family()))
     # the same multi-step programs as ONE compilation unit (whole-unit analyses: constant propagation, inlining, set! detection)
     import re
     joined = []
     for name, ps in fam:
-        if name in ("skeleton", "history"):
+        if name in ("skeleton", "history", "operand-count"):
             for steps in ps:
                 if len(steps) < 2:
                     continue
@@ -215,7 +268,43 @@ def program_set(tier):
                     continue
                 joined.append([" ".join(steps)])
     fam.append(("single-unit", joined))
+    # the same programs with their definitions placed in a FILE MODULE that the program requires: module code is compiled differently
+    # (built-ins resolve to primitives and become arithmetic instructions of any operand count, calls between module functions drop
+    # the arity check, self tail calls become native loops)
+    fam.append(("module-placement", module_variants(fam)))
     return fam
+
+
+def module_variants(fam):
+    """programs whose leading steps are all (define (name ...) ...) of distinct names and whose remaining steps neither define nor
+    assign: the definitions go to <MODDIR>/<hash>.scm with a provide of every name, the program becomes (require file) + rest"""
+    out, seen = [], set()
+    for name, ps in fam:
+        if name not in ("skeleton", "jit", "operand-count"):
+            continue
+        for steps in ps:
+            k = 0
+            names = []
+            while k < len(steps):
+                m = re.match(r"^\(define \(([^\s()]+)[^()]*\) .*\)$", steps[k]) or re.match(r"^\(define \(([^\s()]+) \. [^\s()]+\) .*\)$", steps[k])
+                if not m:
+                    break
+                names.append(m.group(1))
+                k += 1
+            rest = steps[k:]
+            if not names or not rest or len(set(names)) != len(names):
+                continue
+            if any(("(define" in r or "set!" in r) for r in rest) or any("set!" in d for d in steps[:k]):
+                continue
+            if any(n in progs.SPECIALISED for n in names):
+                continue
+            first = "(%%module (provide %s) %s)" % (" ".join(names), " ".join(steps[:k]))
+            key = (first, tuple(rest))
+            if key in seen:
+                continue
+            seen.add(key)
+            out.append([first] + list(rest))
+    return out
 
 
 def run_all(tier, env, rep, prop, env_label=None):
@@ -267,7 +356,7 @@ def main(argv=None):
         rp = r["replay"]
         steps = rp["case"]["steps"]
         rf = reference(steps)
-        r2 = common.run_cases([{"id": 0, "steps": steps}], env=rp.get("env"), batch=1, timeout_ms=20000)[0]
+        r2 = common.run_cases([{"id": 0, "steps": mat(steps)}], env=rp.get("env"), batch=1, timeout_ms=20000)[0]
         obs = observe(r2, len(steps))
         print("reference:", rf)
         print("observed: ", obs)
